@@ -275,6 +275,10 @@ func C10(c *Ctx) {
 	const r5 = "K11.flush-order"
 	flushOrderGroup(c, r5)
 	headPersistGroup(c, "K12.vlog-head-persisted-on-file-change")
+	orphanSSTGroup(c, "K2.orphan-sst-removed-on-open")
+	walBatchAtomicityGroup(c, "K1.request-is-one-wal-unit")
+	vlogSegmentKnownGroup(c, "K1.vlog-segment-known-before-referenced")
+	segmentIDAllocatorGroup(c, "K3.single-segment-id-allocator")
 	const r4 = "K2.orphan-vlog-removal-guard"
 	c.Rule(r4, "valueLog.reconcileManifest removes a segment only when the manifest marks it invalid (false edge of meta.Valid) or when its fid is above the highest manifest-valid fid (false edge of fid <= threshold) and at least one valid file exists")
 	if fn := c.Fn("", "valueLog.reconcileManifest"); fn != nil {
